@@ -53,6 +53,28 @@ func TestC06(t *testing.T) {
 		}
 	})
 
+	// part 3: histories under injected I/O failures (2 histories x 8 fault plans per generated case)
+	fp := params
+	fp.MaxBlocks = 10
+	rapid.Check(t, func(rt *rapid.T) {
+		for i := 0; i < 2; i++ {
+			var p *harness.QProgram
+			if rapid.IntRange(0, 5).Draw(rt, "fillProgram") == 0 {
+				p = harness.GenQFillProgram(rt, harness.QGenParams{MaxBlocks: 3, Bounded: true, MinPages: 16, MaxPages: 64, FillCycles: true})
+			} else {
+				p = harness.GenQProgram(rt, fp)
+			}
+			p.Aux = []uint64{2, rapid.Uint64().Draw(rt, "faultseed")}
+			noteCase("C06", "queue", p.JSON())
+			res := Guard(func() Result { return RunC06Faults(p) })
+			rec.Case(p.JSON(), p.Hash(), res.Counters, res.Nontrivial, res.V)
+			abortOnHang(rec, res.V)
+			if res.V != nil {
+				rt.Fatalf("C06 violated: %v", res.V)
+			}
+		}
+	})
+
 	// part 2: crash images
 	// a quarter of the crash histories runs on a small bounded file with fill-until-error / drain / ACK
 	// cycles: failed flushes, ACK transactions that need the overflow area and release it again
